@@ -5,6 +5,9 @@ C09 - rendering keeps the text.  Claimed for ONE clause only: docstring fields a
   R09.3 every element tag the epytext parser can build is handled by the epytext -> docutils conversion
   R09.4 every symbol name S{...} accepts has a code point
   R09.5 a documented row removed from an accumulator is put back
+  R09.6 a slot filled piecewise by two field kinds is created only while empty
+  R09.7 a reST directive declaring a body reads self.content on every path through run()
+  R09.8 a docutils visit method that prunes its subtree renders all of it (no single child picked by index)
 Does not decide: word-for-word preservation, ordering, literal/doctest blocks, napoleon conversion (equalities over runtime strings).
 """
 from __future__ import annotations
@@ -247,6 +250,107 @@ def run(repo: Repo, chk: Check, thorough: bool = False) -> None:
                'a row that carries text (e.g. only a @type from the docstring) disappears silently', repo.loc(rt.mod, c))
     if not rems:
         chk.note('R09.5: no removal from parameter_descs in resolve_types')
+
+    # ------------------------------------------------------------------ R09.6
+    # a slot that two kinds of field fill piecewise (@return + @rtype, @yield + @ytype) is only created while it is empty:
+    # replacing it would silently discard what the field handled earlier had stored there
+    piecewise: Dict[str, Set[str]] = {}
+    for f in set(handlers.values()):
+        for n in f.walk():
+            if isinstance(n, ast.Assign):
+                for t in n.targets:
+                    if isinstance(t, ast.Attribute) and isinstance(t.value, ast.Attribute) and dotted(t.value.value) == 'self' and t.value.attr in accs:
+                        piecewise.setdefault(t.value.attr, set()).add(t.attr)
+                    if isinstance(t, ast.Attribute) and dotted(t.value) == 'self' and t.attr in accs and isinstance(n.value, ast.Call):
+                        for kw in n.value.keywords:
+                            if kw.arg:
+                                piecewise.setdefault(t.attr, set()).add(kw.arg)
+    n_slots = 0
+    for f in sorted(set(handlers.values()), key=lambda f: f.qn):
+        cfgf = None
+        for n in f.walk():
+            if isinstance(n, ast.Assign):
+                for t in n.targets:
+                    if isinstance(t, ast.Attribute) and dotted(t.value) == 'self' and t.attr in piecewise and len(piecewise[t.attr]) >= 2:
+                        cfgf = cfgf or CFG(f)
+                        facts = cfgf.dominating_tests(n)
+                        empty = any((norm(x) == f'self.{t.attr}' and not pol) or
+                                    (isinstance(x, ast.Compare) and norm(x.left) == f'self.{t.attr}' and len(x.ops) == 1 and norm(x.comparators[0]) == 'None' and
+                                     ((isinstance(x.ops[0], ast.Is) and pol) or (isinstance(x.ops[0], ast.IsNot) and not pol)))
+                                    for x, pol in facts)
+                        n_slots += 1
+                        chk.ob('R09.6', f'{f.qn} :: self.{t.attr} is created only while empty', empty,
+                               f'under `not self.{t.attr}`; the parts {sorted(piecewise[t.attr])} are then set one by one' if empty else
+                               f'`{norm(n)[:70]}` replaces the slot unconditionally: the {sorted(piecewise[t.attr])} parts come from different fields, so the '
+                               'part stored by the field that was handled first (e.g. a @ytype/@rtype written before the @yield/@return) is discarded without a warning',
+                               repo.loc(f.mod, n))
+    if n_slots < 4:
+        raise AnalysisError(f'R09.6: {n_slots} creations of a piecewise-filled slot found in the field handlers (4 confirmed: return/returntype/yield/yieldtype)')
+    chk.require('R09.6', 4)
+
+    # ------------------------------------------------------------------ R09.7
+    # a reST directive that declares a body (has_content = True) consumes it whatever its arguments are: every normal path through
+    # run() passes through a statement that reads self.content
+    n_dir = 0
+    for c in repo.classes.values():
+        if not c.mod.name.startswith('pydoctor.') or '.test' in c.mod.name:
+            continue
+        hc = c.aliases.get('has_content')
+        if hc is None:
+            hc = next((st.value for st in c.node.body if isinstance(st, ast.Assign) and any(isinstance(t, ast.Name) and t.id == 'has_content' for t in st.targets)), None)
+        if not (isinstance(hc, ast.Constant) and hc.value is True):
+            continue
+        run_ = repo.find_method(c, 'run')
+        if run_ is None or not run_.mod.name.startswith('pydoctor.'):
+            continue
+        n_dir += 1
+        cfr = CFG(run_)
+        readers = [st for st in (n for n in run_.walk() if isinstance(n, ast.stmt))
+                   if any(isinstance(x, ast.Attribute) and x.attr == 'content' and dotted(x.value) == 'self'
+                          for x in (ast.walk(st.test) if isinstance(st, (ast.If, ast.While)) else ast.walk(st.iter) if isinstance(st, ast.For) else
+                                    [] if isinstance(st, (ast.Try, ast.With)) else ast.walk(st)))]
+        ok = bool(readers) and cfr.must_pass(cfr.ENTRY, cfr.EXIT, readers, no_exc=True)
+        chk.ob('R09.7', f'{c.qn}.run :: the directive body is consumed on every path', ok,
+               f'self.content read at line(s) {sorted({r.lineno for r in readers})}, on every path to the return' if ok else
+               'a path through run() returns without looking at self.content: for some argument layouts the indented body of the directive is '
+               'dropped from the documentation without any message', run_.loc)
+    if n_dir < 2:
+        raise AnalysisError(f'R09.7: {n_dir} directives with has_content = True found (VersionChange, PythonCodeDirective confirmed)')
+    chk.require('R09.7', 2)
+
+    # ------------------------------------------------------------------ R09.8
+    # a docutils visit method that prunes the subtree (raise SkipNode: the walker will not descend) must render ALL of it itself:
+    # whole `node.children` / `node.astext()`; picking one child by a constant index loses the siblings.  Allowed only for node
+    # classes that have exactly one child by construction.
+    SINGLE_CHILD = {'visit_doctest_block': 'doctest_block is a TextElement built with exactly one Text child by both parsers (rst: docutils; epytext: '
+                                           'set_node_attributes(nodes.doctest_block(text, text)))'}
+    n_prune = 0
+    for f in sorted(repo.funcs.values(), key=lambda f: f.qn):
+        if f.cls is None or not f.mod.name.startswith('pydoctor.') or '.test' in f.mod.name or f.mod.name in ('pydoctor.visitor', 'pydoctor.astbuilder') \
+                or f.mod.name.startswith('pydoctor.extensions'):
+            continue
+        if not any(isinstance(n, ast.Raise) and n.exc is not None and norm(n.exc).startswith('nodes.SkipNode') for n in f.walk()):
+            continue
+        ps = [p.arg for p in f.params()]
+        if len(ps) < 2:
+            continue
+        n_prune += 1
+        nodep = ps[1]
+        picks = [n for n in f.walk() if isinstance(n, ast.Subscript) and isinstance(n.slice, ast.Constant) and isinstance(n.slice.value, int) and
+                 ((isinstance(n.value, ast.Name) and n.value.id == nodep) or
+                  (isinstance(n.value, ast.Attribute) and n.value.attr == 'children' and isinstance(n.value.value, ast.Name) and n.value.value.id == nodep))]
+        callers = [f.name] + [g.name for g in repo.funcs.values() if g.cls is f.cls and any(call_name(c) == f.name for c in calls_in(g))]
+        reason = next((SINGLE_CHILD[c] for c in callers if c in SINGLE_CHILD), None) if len([c for c in callers if c.startswith('visit_')]) <= 1 else None
+        if picks and reason:
+            chk.ob('R09.8', f'{f.qn} :: the pruned subtree is rendered whole', True, f'`{norm(picks[0])}`: {reason}', repo.loc(f.mod, picks[0]), kind='reasoned-exception')
+        else:
+            chk.ob('R09.8', f'{f.qn} :: the pruned subtree is rendered whole', not picks,
+                   'no single child is picked out of the node before SkipNode' if not picks else
+                   f'`{norm(picks[0])}` renders one child of the node and then raises SkipNode: every other child (e.g. the rest of a link label that mixes '
+                   'inline markup and text) is dropped silently', repo.loc(f.mod, picks[0] if picks else f.node))
+    if n_prune < 3:
+        raise AnalysisError(f'R09.8: {n_prune} pruning docutils visit methods found (3 confirmed: _handle_reference, visit_doctest_block, visit_field)')
+    chk.require('R09.8', 3)
 
 
 def _extract_fields_covers(repo: Repo) -> bool:
